@@ -279,8 +279,10 @@ package commands
 //@   assumed
 //@   modifies fresh
 //@ func downloadTransfer
-//@   assumed
+//@   props C04
+//@   requires @inv p != nil && p.Pointer != nil && p.Oid != fs.EmptyObjectSHA256
 //@   modifies fresh
+//@   ensures name == p.Name && oid == p.Oid && size == p.Size && !missing && (err == nil ==> path == objpath(p.Oid))
 //@ func github.com/git-lfs/git-lfs/v3/tasklog.NewLogger
 //@   assumed
 //@   modifies fresh
@@ -390,10 +392,6 @@ package commands
 //@   props C03 C14
 //@   modifies fresh
 //@   monitor waited[q] := true
-//@ func (*github.com/git-lfs/git-lfs/v3/tq.TransferQueue).Errors
-//@   assumed
-//@   props C03
-//@   modifies fresh
 
 // C14: the long-running filter.  Status packets: statusFromErr and
 // delayedStatusFromErr map an error to exactly the protocol's status; a
@@ -604,3 +602,34 @@ package commands
 //@   ensures result1 == nil && oid != fs.EmptyObjectSHA256 ==> result0 == objpath(oid)
 //@   ensures result1 == nil && oid == fs.EmptyObjectSHA256 ==> result0 == devnull
 //@   ensures !err_cleanptr(result1)
+
+// C04, fetch side: an object is left out of a fetch only if it was already
+// handled in this run (dry-run / refetch bookkeeping), is empty, or exists
+// locally with the recorded size (and --refetch was not given); every other
+// pointer is queued exactly once under its own id, size and object path, and
+// the fetch reports failure when the queue collected any error.
+//@ func pointersToFetch
+//@   props C04
+//@   loop 1 iter len(pointersToFetch) >= iter(len(pointersToFetch)) && len(pointersToFetch) <= iter(len(pointersToFetch)) + 1
+//@   loop 1 iter len(pointersToFetch) > iter(len(pointersToFetch)) ==> pointersToFetch[iter(len(pointersToFetch))] == p && p.Size != 0
+//@   loop 1 iter len(pointersToFetch) == iter(len(pointersToFetch)) ==> p.Size == 0 || (watcher != nil && has(watcher.observed, p.Oid) && watcher.observed[p.Oid]) || (!fetchRefetchArg && lastexists())
+//@ func fetch
+//@   props C04
+//@   loop 1 iter qadds(q) == iter(qadds(q)) + 1
+//@   at call (*tq.TransferQueue).Add:1 assert arg3__ == p.Oid && arg4__ == p.Size && arg1__ == p.Name && !arg5__
+//@   loop 2 invariant rangeindex >= 0 ==> !ok
+//@   ensures result ==> lasterrs() == 0
+//@ func (*github.com/git-lfs/git-lfs/v3/tq.TransferQueue).Errors
+//@   assumed
+//@   props C03 C04
+//@   modifies fresh, ghost lasterrs
+//@   ensures len(result) == lasterrs()
+//@ func newDownloadQueue
+//@   assumed
+//@   props C04
+//@   modifies fresh
+//@   ensures result != nil && isfresh(result)
+//@ func (*fetchWatcher).registerTransfer
+//@   assumed
+//@   props C04
+//@   modifies fresh, fields d
